@@ -74,6 +74,10 @@ impl InlineCache {
   /// for the provided class
   pub fn get_property_cache(&self, inline_slot: usize, class: ObjRef<Class>) -> Option<usize> {
     debug_assert!(inline_slot < self.property.len());
+    #[cfg(feature = "verif")]
+    if laythe_core::verif::force_miss() {
+      return None;
+    }
     match unsafe { self.property.get_unchecked(inline_slot) } {
       Some(cache) => {
         if cache.class == class {
@@ -112,6 +116,10 @@ impl InlineCache {
   /// for the provided class
   pub fn get_invoke_cache(&self, inline_slot: usize, class: ObjRef<Class>) -> Option<Value> {
     debug_assert!(inline_slot < self.invoke.len());
+    #[cfg(feature = "verif")]
+    if laythe_core::verif::force_miss() {
+      return None;
+    }
     match unsafe { self.invoke.get_unchecked(inline_slot) } {
       Some(cache) => {
         if cache.class == class {
